@@ -341,4 +341,9 @@ def r5(F, R):
     roles.check_field_faithful_clone(F, R, "runner::basic::Basic", "runner")
 
 
-RULES = [("R1", r1, None), ("R2", r2, None), ("R3", r3, None), ("R4", r4, None), ("R5", r5, None)]
+def r6_setters(F, R):
+    """`max_concurrent_scenarios(n)` stores n in the field the scheduler reads (runner) / forwards to it (Cucumber)."""
+    roles.check_all_builder_setters(F, R, only=r"^max_concurrent_scenarios$", floor=2)
+
+
+RULES = [("R1", r1, None), ("R2", r2, None), ("R3", r3, None), ("R4", r4, None), ("R5", r5, None), ("R6", r6_setters, None)]
